@@ -9,8 +9,8 @@ LOCAL SX == INSTANCE SequencesExt
 SetToSeq(set) == SX!SetToSeq(set)
 
 INSTANCE JsonDoc WITH Scalars <- {}, ArgConts <- {}, Keys <- {}, SliceB <- {}, MaxLen <- 0, MaxSeq <- 0, InitDocs <- {},
-                      MaxBurst <- 0, MaxCommits <- 0, Ops <- {},
-                      doc <- 0, committed <- 0, dirty <- FALSE, alias <- 0, budget <- 0, ncommit <- 0, ev <- 0
+                      MaxBurst <- 0, MaxCommits <- 0, Ops <- {}, SrcDocs <- {}, MoveFrom <- {},
+                      doc <- 0, committed <- 0, dirty <- FALSE, alias <- 0, budget <- 0, ncommit <- 0, ev <- 0, src <- 0
 
 In == JsonDeserialize(IOEnv.IN)
 Quick == In.tier = "quick"
